@@ -646,11 +646,16 @@ fn create_doc_without_preceding_comment(
           ),
         ]);
       }
-      if e.e2.precedence() == expression.precedence() {
-        // For the commutative operators, we can remove parentheses.
+      if let expr::E::Binary(e2) = e.e2.as_ref()
+        && e2.operator == e.operator
+      {
+        // For a chain of one associative operator, we can remove parentheses.
         match e.operator {
-          expr::BinaryOperator::MINUS | expr::BinaryOperator::DIV | expr::BinaryOperator::MOD => {}
-          _ => {
+          expr::BinaryOperator::MUL
+          | expr::BinaryOperator::PLUS
+          | expr::BinaryOperator::CONCAT
+          | expr::BinaryOperator::AND
+          | expr::BinaryOperator::OR => {
             return Document::concat(vec![
               create_doc_for_subexpression_considering_precedence_level(
                 heap,
@@ -664,6 +669,7 @@ fn create_doc_without_preceding_comment(
               create_doc(heap, comment_store, &e.e2),
             ]);
           }
+          _ => {}
         }
       }
       // Safest rule
